@@ -353,6 +353,8 @@ pub fn run(ctx: &Ctx, replay: Option<&J>, idem: bool) -> i32 {
     }
     // T2: parent x child in every slot (single-slot variation), all kinds
     trees.extend(single_slot(&kinds, &kinds, &mut stats));
+    // strings made of the language's own punctuation inside operands that need parentheses
+    trees.extend(punctuation_string_trees(thorough).into_iter().filter(|t| crate::parse::parse_program(&t.full(), false).is_ok()));
     // every kind x every slot x every literal leaf (those that parse: a literal is not admissible everywhere)
     trees.extend(literal_slot(&kinds).into_iter().filter(|t| crate::parse::parse_program(&t.full(), false).is_ok()));
     if thorough {
@@ -505,7 +507,7 @@ pub fn run(ctx: &Ctx, replay: Option<&J>, idem: bool) -> i32 {
         if idem {
             "same programs and widths as C07 plus statement sequences with comments and 0..5 blank lines; for every distinct output of every (program, width): format(output, width) == output; through format_blots (native shim) and blots --format; distinct = distinct programs"
         } else {
-            "reference renderings of every tree of the generator families (every kind; parent x child in every slot; every kind x slot x 13 literal leaves; thorough: full slot products, depth-3 spines over all kinds, depth-4 spines over class representatives), literal families, the corpus and comment/blank-line sequences x every width 1..saturation bound plus None; every distinct output re-parsed and compared statement by statement (AST PartialEq, spans ignored) with the input; through format_blots (native shim) and blots --format; distinct = distinct programs"
+            "reference renderings of every tree of the generator families (every kind; parent x child in every slot; every kind x slot x 13 literal leaves; punctuation-string operands under every parenthesis-requiring wrapper; thorough: full slot products, depth-3 spines over all kinds, depth-4 spines over class representatives), literal families, the corpus and comment/blank-line sequences x every width 1..saturation bound plus None; every distinct output re-parsed and compared statement by statement (AST PartialEq, spans ignored) with the input; through format_blots (native shim) and blots --format; distinct = distinct programs"
         },
         true,
         Some((stats.states, stats.transitions, stats.transitions)).filter(|_| false),
